@@ -127,26 +127,35 @@ def do_op(ch, twin, o):
     return "RDone"
 
 
-def make_case(text, ops):
+def text_of(ch):
+    """Everything str() / repr() show of the chart, its tracks and its events (the rendering the property speaks of)."""
+    try:
+        return [str(ch), repr(ch)] + [f(e) for e in all_events(ch) for f in (str, repr)] + [f(t) for t in all_tracks(ch) for f in (str, repr)]
+    except Exception as e:  # noqa: BLE001
+        return ["rendering failed: %s" % type(e).__name__]
+
+
+def make_case(text, ops, want=None):
     import io
     import chartparse.chart as chart_mod
-    ch, exc, out_parse = parse_case(text)
+    ch, exc, out_parse = parse_case(text, want)
     if ch is None:
         out = "(Err %s)" % pyval.errkind(exc)
     else:
-        twin = chart_mod.Chart.from_file(io.StringIO(text, newline=""))
+        twin = chart_mod.Chart.from_file(io.StringIO(text, newline=""), want_tracks=pyval.to_pairs(want))
         first = pyval.r_chart(ch)
+        first_text = text_of(ch)
         first_vars = sorted(vars(ch).keys())
         steps = []
         for o in ops:
             res = do_op(ch, twin, o)
             now = pyval.r_chart(ch)
             keys = [k.value if hasattr(k, "value") else str(k) for k in ch.instrument_tracks.keys()]
-            unchanged = now == first and sorted(vars(ch).keys()) == first_vars
+            unchanged = now == first and sorted(vars(ch).keys()) == first_vars and text_of(ch) == first_text
             teq = bool(ch == twin) and bool(twin == ch)
             steps.append("(%s, %s, %s, %s)" % (coq_bool(unchanged), coq_list(coq_str(k) for k in keys), coq_bool(teq), res))
         out = "(Ok (%s, %s))" % (first, coq_list(steps))
-    return dict(case=dict(text=text, ops=ops), in_term="(%s, %s)" % (parse_in_term(text), coq_list(r_op(o) for o in ops)), out_term=out,
+    return dict(case=dict(text=text, ops=ops, want=want), in_term="(%s, %s)" % (parse_in_term(text, want), coq_list(r_op(o) for o in ops)), out_term=out,
                 nontrivial=True, tags=["ops=%d" % len(ops)] + sorted({"op:" + o[0] for o in ops}), signature="C19:" + key_of([text, ops]))
 
 
@@ -157,7 +166,8 @@ def gen(rng):
         text, ops = gen1(rng)
         try:
             chart_mod.Chart.from_file(io.StringIO(text, newline=""))
-            return text, ops
+            # one chart in eight is parsed with a selection that matches nothing: a chart without any instrument track
+            return text, ops, ([] if rng.random() < 0.12 else None)
         except Exception:  # noqa: BLE001  (e.g. a forced flag on the first group after reversal): draw again
             continue
 
@@ -173,6 +183,8 @@ def gen1(rng):
         nl.reverse()
         lines = nl + rest
     tracks = [("ExpertSingle", lines)]
+    if rng.random() < 0.08:
+        tracks = []          # only the three required sections
     if rng.random() < 0.6:
         tracks.append(("HardSingle", []))
     if rng.random() < 0.4:
@@ -239,10 +251,10 @@ def fix_ops(ops):
 
 def run(ctx, only=None):
     if only:
-        cs = [make_case(c["text"], fix_ops(c["ops"])) for c in only if c]
+        cs = [make_case(c["text"], fix_ops(c["ops"]), c.get("want")) for c in only if c]
     else:
         rng = ctx["rng"]
-        cs = [make_case(c["text"], fix_ops(c["ops"])) for c in load_corpus("C19")]
+        cs = [make_case(c["text"], fix_ops(c["ops"]), c.get("want")) for c in load_corpus("C19")]
         n = 60 if ctx["tier"] == "quick" else 2000
         while len(cs) < n:
             cs.append(make_case(*gen(rng)))
